@@ -135,6 +135,143 @@ theorem traceWord_of_entries {tab : Tab} {n : Nat} {T : Table} {φ : Nat → Nat
     | err => simp [hg] at h
     | panic => simp [hg] at h
 
+/-- `compact()` of a complete table without pending coincidences in which the relators close
+    at every canonical row and the subgroup generators at the base row: its public view
+    satisfies the mathematical content of the Spec, and it has at most as many rows -/
+theorem compact_view_valid {n : Nat} {rels subs : List (List Int)} {T t : Table} (inv : TCq T [])
+    (hcomp : AllComplete T) (hn : T.nrGens = n)
+    (hr : ∀ w ∈ rels, ∀ x ∈ w, x ∈ allGensOf n) (hs : ∀ w ∈ subs, ∀ x ∈ w, x ∈ allGensOf n)
+    (hrel : ∀ w ∈ rels, ∀ k, T.canon k = k → k < T.len → mtrace T k w = some k)
+    (hsub : ∀ w ∈ subs, mtrace T (T.canon 0) w = some (T.canon 0))
+    (h : T.compact = .ok t) :
+    ∃ v, t.view = .ok v ∧ CosetP.Valid (viewTab v) n rels subs ∧ (viewTab v).size ≤ T.len := by
+  obtain ⟨o2n, m, num, h0, c1, c2, c3, c4, c5⟩ := compact_spec inv hcomp h
+  have hgens : T.allGens = allGensOf n := by unfold Table.allGens; rw [hn]
+  have hgens' : t.allGens = allGensOf n := by unfold Table.allGens; rw [c1, hn]
+  have hm1 : 1 ≤ m := by have := (num.sound _ _ h0).2; omega
+  -- the numbering as functions
+  let φ : Nat → Nat := fun k => match o2n[k]? with
+    | some (some j) => j
+    | _ => 0
+  have hφ : ∀ k j, o2n[k]? = some (some j) → φ k = j := fun k j hk => by simp only [φ, hk]
+  have hlive : ∀ k, T.canon k = k → k < T.len → o2n[k]? = some (some (φ k)) ∧ φ k < m := by
+    intro k hk hkl
+    obtain ⟨j, hj⟩ := num.total k hkl
+    rw [hk] at hj
+    rw [hφ k j hj]
+    exact ⟨hj, (num.sound k j hj).2⟩
+  have hsurj : ∀ j, j < m → ∃ k, T.canon k = k ∧ k < T.len ∧ φ k = j := by
+    intro j hj
+    obtain ⟨k, hk⟩ := num.surj j hj
+    have hkl : k < T.len := by
+      by_contra hx
+      rw [Array.getElem?_eq_none (by rw [num.size]; omega)] at hk; cases hk
+    exact ⟨k, (num.sound k j hk).1, hkl, hφ k j hk⟩
+  have hinj : ∀ k k', T.canon k = k → k < T.len → T.canon k' = k' → k' < T.len → φ k = φ k' → k = k' := by
+    intro k k' a1 a2 b1 b2 e
+    have h1 := (hlive k a1 a2).1
+    have h2 := (hlive k' b1 b2).1
+    rw [e] at h1
+    exact num.inj k k' _ h1 h2
+  have hφ0 : φ (T.canon 0) = 0 := hφ _ _ h0
+  -- entries of the compacted table
+  have hentT : ∀ k g c, g ∈ T.allGens → T.canon k = k → k < T.len → T.get k g = .ok (some c) →
+      t.get (φ k) g = .ok (some (φ c)) ∧ φ c < m := by
+    intro k g c hg hk hkl hget
+    have hc := get_canon inv.shape hget
+    have hcl := inv.shape.range k g c hg hget
+    exact ⟨c5 k g c _ _ hg hk hkl hget (hlive k hk hkl).1 (hlive c hc hcl).1, (hlive c hc hcl).2⟩
+  -- the entry function of the compacted table
+  have hE : ∀ j, j < m → ∀ g ∈ allGensOf n, ∃ e, t.get j g = .ok (some e) ∧ e < m := by
+    intro j hj g hg
+    obtain ⟨k, hk, hkl, rfl⟩ := hsurj j hj
+    obtain ⟨c, hc⟩ := (get_some_iff T k g).mpr (hcomp k hkl hk g (by rw [hgens]; exact hg))
+    obtain ⟨e1, e2⟩ := hentT k g c (by rw [hgens]; exact hg) hk hkl hc
+    exact ⟨φ c, e1, e2⟩
+  let E : Nat → Int → Nat := fun j g => match t.get j g with
+    | .ok (some e) => e
+    | _ => 0
+  have hEget : ∀ j, j < m → ∀ g ∈ allGensOf n, t.get j g = .ok (some (E j g)) ∧ E j g < m := by
+    intro j hj g hg
+    obtain ⟨e, he, hem⟩ := hE j hj g hg
+    have : E j g = e := by simp only [E, he]
+    rw [this]; exact ⟨he, hem⟩
+  have hview : t.view = .ok ((List.range m).map fun j => (allGensOf n).map fun g => ((E j g : Nat) : Int)) := by
+    unfold Table.view
+    rw [c4, viewRows_ok t E (List.range m) (fun j hj g hg => by
+      rw [hgens'] at hg
+      exact (hEget j (List.mem_range.mp hj) g hg).1), hgens']
+  have hmle : m ≤ T.len := by
+    by_contra hgt
+    -- more numbers than rows is impossible: the numbering is injective on rows
+    have hinjN : ∀ j, j < m → ∃ k, k < T.len ∧ φ k = j := fun j hj => by
+      obtain ⟨k, _, hkl, hk⟩ := hsurj j hj; exact ⟨k, hkl, hk⟩
+    let f : Fin m → Fin T.len := fun j => ⟨(hinjN j.val j.isLt).choose, (hinjN j.val j.isLt).choose_spec.1⟩
+    have hf : Function.Injective f := by
+      intro a b hab
+      have e1 := (hinjN a.val a.isLt).choose_spec.2
+      have e2 := (hinjN b.val b.isLt).choose_spec.2
+      have : (hinjN a.val a.isLt).choose = (hinjN b.val b.isLt).choose := congrArg Fin.val hab
+      apply Fin.ext
+      rw [← e1, ← e2, this]
+    have := Fintype.card_le_of_injective f hf
+    simp at this
+    omega
+  have hsz0 : (viewTab ((List.range m).map fun j => (allGensOf n).map fun g => ((E j g : Nat) : Int))).size = m := by
+    simp [viewTab]
+  refine ⟨_, hview, ?_, by rw [hsz0]; exact hmle⟩
+  set tab := viewTab ((List.range m).map fun j => (allGensOf n).map fun g => ((E j g : Nat) : Int)) with htab
+  have hsize : tab.size = m := by simp [htab, viewTab]
+  have hentry : ∀ j, j < m → ∀ g ∈ allGensOf n, entry tab n j g = some (E j g) := fun j hj g hg =>
+    entry_viewTab E (fun j' hj' g' hg' => (hEget j' hj' g' hg').2) hj hg
+  have hent : ∀ k g c, g ∈ T.allGens → T.canon k = k → k < T.len → T.get k g = .ok (some c) →
+      entry tab n (φ k) g = some (φ c) := by
+    intro k g c hg hk hkl hget
+    obtain ⟨e1, _⟩ := hentT k g c hg hk hkl hget
+    have hj := (hlive k hk hkl).2
+    rw [hentry _ hj g (by rw [← hgens]; exact hg)]
+    have := (hEget _ hj g (by rw [← hgens]; exact hg)).1
+    rw [e1] at this
+    injection this with this; injection this with this
+    rw [this]
+  have hlet : ∀ g, g ∈ letters n ↔ g ∈ allGensOf n := fun g => by rw [CosetP.allGensOf_eq_letters]
+  have hwr : ∀ w ∈ rels, WordOK T w := fun w hw x hx => by rw [hgens]; exact hr w hw x hx
+  have hws : ∀ w ∈ subs, WordOK T w := fun w hw x hx => by rw [hgens]; exact hs w hw x hx
+  refine ⟨by rw [hsize]; omega, ?_, ?_, ?_, ?_, ?_⟩
+  · intro c hc g hg
+    rw [hsize] at hc
+    exact ⟨_, hentry c hc g ((hlet g).mp hg)⟩
+  · intro c g d he
+    obtain ⟨_, hc, hg⟩ := CosetP.entry_some he
+    rw [hsize] at hc
+    obtain ⟨k, hk, hkl, rfl⟩ := hsurj c hc
+    have hgT : g ∈ T.allGens := by rw [hgens]; exact (hlet g).mp hg
+    obtain ⟨c', hc'⟩ := (get_some_iff T k g).mpr (hcomp k hkl hk g hgT)
+    rw [hent k g c' hgT hk hkl hc'] at he
+    injection he with he
+    subst he
+    have hback := invCan_of_tcq inv hgT hk hc'
+    exact hent c' (-g) k (neg_mem_allGensOf hgT) (get_canon inv.shape hc')
+      (inv.shape.range k g c' hgT hc') hback
+  · intro r hrm c hc
+    rw [hsize] at hc
+    obtain ⟨k, hk, hkl, rfl⟩ := hsurj c hc
+    exact traceWord_of_entries hent inv.shape r k k (hwr r hrm) hk hkl (hrel r hrm k hk hkl)
+  · intro s hsm
+    have := hsub s hsm
+    have h2 := traceWord_of_entries hent inv.shape s _ _ (hws s hsm) (canon_idem inv.shape 0)
+      (canon_lt inv.shape inv.shape.pos) this
+    rw [hφ0] at h2
+    exact h2
+  · intro c hc
+    rw [hsize] at hc
+    obtain ⟨k, hk, hkl, rfl⟩ := hsurj c hc
+    obtain ⟨w, hw, hp⟩ := reach_of_tcq inv hk hkl
+    have h2 := traceWord_of_entries hent inv.shape w _ _ hw (canon_idem inv.shape 0)
+      (canon_lt inv.shape inv.shape.pos) hp
+    rw [hφ0] at h2
+    exact ⟨w, h2⟩
+
 /-- **`coset_table_valid_partial`**: whenever the modelled `coset_table` returns a table (no
     panic, no fuel exhaustion) for words over the letters `±1..±n`, its public view satisfies
     the mathematical content of the Spec: every entry defined and in range, the inverse
@@ -149,118 +286,17 @@ theorem cosetTable_valid {n : Nat} {rels subs : List (List Int)} {t : Table}
   | ok T =>
     simp only [hraw] at h
     obtain ⟨inv, hcomp, hclosed, hn⟩ := cosetTableRaw_final hr hs hraw
-    obtain ⟨o2n, m, num, h0, c1, c2, c3, c4, c5⟩ := compact_spec inv hcomp h
     have hgens : T.allGens = allGensOf n := by unfold Table.allGens; rw [hn]
-    have hgens' : t.allGens = allGensOf n := by unfold Table.allGens; rw [c1, hn]
-    have hm1 : 1 ≤ m := by have := (num.sound _ _ h0).2; omega
-    -- the numbering as functions
-    let φ : Nat → Nat := fun k => match o2n[k]? with
-      | some (some j) => j
-      | _ => 0
-    have hφ : ∀ k j, o2n[k]? = some (some j) → φ k = j := fun k j hk => by simp only [φ, hk]
-    have hlive : ∀ k, T.canon k = k → k < T.len → o2n[k]? = some (some (φ k)) ∧ φ k < m := by
-      intro k hk hkl
-      obtain ⟨j, hj⟩ := num.total k hkl
-      rw [hk] at hj
-      rw [hφ k j hj]
-      exact ⟨hj, (num.sound k j hj).2⟩
-    have hsurj : ∀ j, j < m → ∃ k, T.canon k = k ∧ k < T.len ∧ φ k = j := by
-      intro j hj
-      obtain ⟨k, hk⟩ := num.surj j hj
-      have hkl : k < T.len := by
-        by_contra hx
-        rw [Array.getElem?_eq_none (by rw [num.size]; omega)] at hk; cases hk
-      exact ⟨k, (num.sound k j hk).1, hkl, hφ k j hk⟩
-    have hinj : ∀ k k', T.canon k = k → k < T.len → T.canon k' = k' → k' < T.len → φ k = φ k' → k = k' := by
-      intro k k' a1 a2 b1 b2 e
-      have h1 := (hlive k a1 a2).1
-      have h2 := (hlive k' b1 b2).1
-      rw [e] at h1
-      exact num.inj k k' _ h1 h2
-    have hφ0 : φ (T.canon 0) = 0 := hφ _ _ h0
-    -- entries of the compacted table
-    have hentT : ∀ k g c, g ∈ T.allGens → T.canon k = k → k < T.len → T.get k g = .ok (some c) →
-        t.get (φ k) g = .ok (some (φ c)) ∧ φ c < m := by
-      intro k g c hg hk hkl hget
-      have hc := get_canon inv.shape hget
-      have hcl := inv.shape.range k g c hg hget
-      exact ⟨c5 k g c _ _ hg hk hkl hget (hlive k hk hkl).1 (hlive c hc hcl).1, (hlive c hc hcl).2⟩
-    -- the entry function of the compacted table
-    have hE : ∀ j, j < m → ∀ g ∈ allGensOf n, ∃ e, t.get j g = .ok (some e) ∧ e < m := by
-      intro j hj g hg
-      obtain ⟨k, hk, hkl, rfl⟩ := hsurj j hj
-      obtain ⟨c, hc⟩ := (get_some_iff T k g).mpr (hcomp k hkl hk g (by rw [hgens]; exact hg))
-      obtain ⟨e1, e2⟩ := hentT k g c (by rw [hgens]; exact hg) hk hkl hc
-      exact ⟨φ c, e1, e2⟩
-    let E : Nat → Int → Nat := fun j g => match t.get j g with
-      | .ok (some e) => e
-      | _ => 0
-    have hEget : ∀ j, j < m → ∀ g ∈ allGensOf n, t.get j g = .ok (some (E j g)) ∧ E j g < m := by
-      intro j hj g hg
-      obtain ⟨e, he, hem⟩ := hE j hj g hg
-      have : E j g = e := by simp only [E, he]
-      rw [this]; exact ⟨he, hem⟩
-    have hview : t.view = .ok ((List.range m).map fun j => (allGensOf n).map fun g => ((E j g : Nat) : Int)) := by
-      unfold Table.view
-      rw [c4, viewRows_ok t E (List.range m) (fun j hj g hg => by
-        rw [hgens'] at hg
-        exact (hEget j (List.mem_range.mp hj) g hg).1), hgens']
-    refine ⟨_, hview, ?_⟩
-    set tab := viewTab ((List.range m).map fun j => (allGensOf n).map fun g => ((E j g : Nat) : Int)) with htab
-    have hsize : tab.size = m := by simp [htab, viewTab]
-    have hentry : ∀ j, j < m → ∀ g ∈ allGensOf n, entry tab n j g = some (E j g) := fun j hj g hg =>
-      entry_viewTab E (fun j' hj' g' hg' => (hEget j' hj' g' hg').2) hj hg
-    have hent : ∀ k g c, g ∈ T.allGens → T.canon k = k → k < T.len → T.get k g = .ok (some c) →
-        entry tab n (φ k) g = some (φ c) := by
-      intro k g c hg hk hkl hget
-      obtain ⟨e1, _⟩ := hentT k g c hg hk hkl hget
-      have hj := (hlive k hk hkl).2
-      rw [hentry _ hj g (by rw [← hgens]; exact hg)]
-      have := (hEget _ hj g (by rw [← hgens]; exact hg)).1
-      rw [e1] at this
-      injection this with this; injection this with this
-      rw [this]
-    have hlet : ∀ g, g ∈ letters n ↔ g ∈ allGensOf n := fun g => by rw [CosetP.allGensOf_eq_letters]
     have hwr : ∀ w ∈ rels, WordOK T w := fun w hw x hx => by rw [hgens]; exact hr w hw x hx
     have hws : ∀ w ∈ subs, WordOK T w := fun w hw x hx => by rw [hgens]; exact hs w hw x hx
-    refine ⟨by rw [hsize]; omega, ?_, ?_, ?_, ?_, ?_⟩
-    · intro c hc g hg
-      rw [hsize] at hc
-      exact ⟨_, hentry c hc g ((hlet g).mp hg)⟩
-    · intro c g d he
-      obtain ⟨_, hc, hg⟩ := CosetP.entry_some he
-      rw [hsize] at hc
-      obtain ⟨k, hk, hkl, rfl⟩ := hsurj c hc
-      have hgT : g ∈ T.allGens := by rw [hgens]; exact (hlet g).mp hg
-      obtain ⟨c', hc'⟩ := (get_some_iff T k g).mpr (hcomp k hkl hk g hgT)
-      rw [hent k g c' hgT hk hkl hc'] at he
-      injection he with he
-      subst he
-      have hback := invCan_of_tcq inv hgT hk hc'
-      exact hent c' (-g) k (neg_mem_allGensOf hgT) (get_canon inv.shape hc')
-        (inv.shape.range k g c' hgT hc') hback
-    · intro r hrm c hc
-      rw [hsize] at hc
-      obtain ⟨k, hk, hkl, rfl⟩ := hsurj c hc
-      have := closed_word inv hcomp (hwr r hrm) hk hkl (hclosed.1 k hkl r hrm)
-      exact traceWord_of_entries hent inv.shape r k k (hwr r hrm) hk hkl this
-    · intro s hsm
-      have hcl : scanAndMerge T s (T.canon 0) = .ok (T, false) := by
-        rw [scanAndMerge_canon inv.shape]; exact hclosed.2 s hsm
-      have := closed_word inv hcomp (hws s hsm) (canon_idem inv.shape 0)
-        (canon_lt inv.shape inv.shape.pos) hcl
-      have h2 := traceWord_of_entries hent inv.shape s _ _ (hws s hsm) (canon_idem inv.shape 0)
-        (canon_lt inv.shape inv.shape.pos) this
-      rw [hφ0] at h2
-      exact h2
-    · intro c hc
-      rw [hsize] at hc
-      obtain ⟨k, hk, hkl, rfl⟩ := hsurj c hc
-      obtain ⟨w, hw, hp⟩ := reach_of_tcq inv hk hkl
-      have h2 := traceWord_of_entries hent inv.shape w _ _ hw (canon_idem inv.shape 0)
-        (canon_lt inv.shape inv.shape.pos) hp
-      rw [hφ0] at h2
-      exact ⟨w, h2⟩
+    obtain ⟨v, h1, h2, _⟩ := compact_view_valid inv hcomp hn hr hs
+      (fun w hw k hk hkl => closed_word inv hcomp (hwr w hw) hk hkl (hclosed.1 k hkl w hw))
+      (fun w hw => by
+        have hcl : scanAndMerge T w (T.canon 0) = .ok (T, false) := by
+          rw [scanAndMerge_canon inv.shape]; exact hclosed.2 w hw
+        exact closed_word inv hcomp (hws w hw) (canon_idem inv.shape 0)
+          (canon_lt inv.shape inv.shape.pos) hcl) h
+    exact ⟨v, h1, h2⟩
   | err => simp [hraw] at h
   | panic => simp [hraw] at h
 
